@@ -172,7 +172,20 @@ func c05Gen(rng *verifsim.RNG, idx int, tier string) *Plan {
 			q.Actions = append(q.Actions, rsAction(int64(rng.Dur(0, time.Duration(q.Horizon)))+jitter(rng), "::"))
 		}
 		// "recur forever" includes across a re-initialisation
-		maybeReinit(rng, q, "eth0", nsSec, q.Horizon*3/4, 0.3)
+		if maybeReinit(rng, q, "eth0", nsSec, q.Horizon*3/4, 0.3) && rng.Bool(0.4) {
+			// ... with a slow transmission in flight at the link event, which then
+			// fails: the connection is given up for two reasons at once
+			var at int64
+			for _, a := range q.Actions {
+				if a.Kind == "link" {
+					at = a.At
+				}
+			}
+			lat := int64(rng.Dur(200*time.Millisecond, 1500*time.Millisecond))
+			q.Faults = append(q.Faults, Fault{Seam: "write", From: at - lat/2 - 600*nsMs, Count: 1, Lat: lat, Err: []string{"ENETDOWN", "ENOBUFS"}[rng.Intn(2)]})
+			q.Actions = append(q.Actions, rsAction(at-lat/2-550*nsMs, hostAddr(0)))
+			q.Class += "+failing-send-in-flight"
+		}
 		return q
 	}
 	return p
